@@ -34,9 +34,18 @@ def as_ast(p_var: Any) -> ast.expr:
         the result will be an AST node of type ast.List.
 
     """
-    # If we are dealing with a string, we have to special case this.
+    # The standard containers are built up from their items: how an item is rendered does
+    # not depend on the `repr` of whatever is around it.
+    if type(p_var) in (list, tuple):
+        items = [as_ast(v) for v in p_var]
+        return ast.List(items, ast.Load()) if type(p_var) is list else ast.Tuple(items, ast.Load())
+    if type(p_var) is dict:
+        return ast.Dict([as_ast(k) for k in p_var.keys()], [as_ast(v) for v in p_var.values()])
+
+    # If we are dealing with a string, we have to special case this. A sub-class of `str` can
+    # have a `repr` of its own (every `str` `Enum` does) - we want the text of the string.
     if isinstance(p_var, str):
-        p_var = repr(p_var)
+        p_var = str.__repr__(p_var)
     a = ast.parse(str(p_var))
 
     # Life out the thing inside the expression.
